@@ -37,6 +37,7 @@ def gen_cases(ctx, n):
                 ind["parameters"]["x_init"] = "0.75"
         if rng.random() < 0.15:
             name, f = rng.choice(FUNCS)
+            f = systems.in_time_symbol(f, ind)      # the function is one of the CONFIGURED time variable
             ind["dynamics"].append({"expression": "%s = %s" % (name, f)})
             for p in ("tau", "tau_s"):
                 if "parameters" in ind and p in f and p not in ind["parameters"]:
